@@ -256,7 +256,7 @@ def rule_drain_members(fx, cg, v):
             reach = cg.reachable([cancel])
             fns = [t[0] for t in reach.values()]
             leaves = list(parking_leaves(fx, tu, 'client_service'))
-            if len(leaves) < 10:
+            if len(leaves) < 10 and not tu.startswith('test_'):      # the floor is for the driver TUs; a test TU instantiates what it needs
                 raise AnalysisBroken('only %d handler-parking members found under client_service in %s'
                                      % (len(leaves), tu))
             drained = {}
